@@ -23,63 +23,66 @@ Hypotheses, all of them discharged for the models' own fresh-symbol supply by `*
 -/
 namespace PySMT.C11
 open PySMT.CNF PySMT.Ackermann
+open PySMT.C11.Proofs (KeysFresh ConstsFresh var_wf node_wf allTrue allTrue_wf)
 
 /-! ### CNFizer -/
 
-theorem cnf_shape_thm (E : CNF.Env) (hσ : SimpShape E.simp) (t : Term) (hwf : t.wf = true) (R : List Clause)
-    (hR : CNF.convert E t = some R) : shapeClauses R = true := cnf_shape E hσ t hwf R hR
+theorem cnf_shape (E : CNF.Env) (hσ : SimpShape E.simp) (t : Term) (hwf : t.wf = true) (R : List Clause)
+    (hR : CNF.convert E t = some R) : shapeClauses R = true :=
+  Proofs.cnf_shape E hσ t hwf R hR
 
-theorem cnf_complete_thm (E : CNF.Env) (u : Sym → Option Term) (t : Term) (I : Interp) (R : List Clause)
+theorem cnf_complete (E : CNF.Env) (u : Sym → Option Term) (t : Term) (I : Interp) (R : List Clause)
     (hkeys : KeysFresh E u t) (hσ : SimpSound E.simp t I) (hR : CNF.convert E t = some R)
     (hI : eval I t = .b true) :
     eval (ext u I) (formulaOf R) = .b true ∧ SameOn t I (ext u I) :=
-  cnf_complete E u t I R hkeys hσ hR hI
+  Proofs.cnf_complete E u t I R hkeys hσ hR hI
 
-theorem cnf_sound_thm (E : CNF.Env) (u : Sym → Option Term) (t : Term) (J : Interp) (R : List Clause)
+theorem cnf_sound (E : CNF.Env) (u : Sym → Option Term) (t : Term) (J : Interp) (R : List Clause)
     (hkeys : KeysFresh E u t) (hs : SimpSym E.simp) (hσ : SimpSound E.simp t J)
     (hR : CNF.convert E t = some R) (hJ : eval J (formulaOf R) = .b true) : eval J t = .b true :=
-  cnf_sound E u t J R hkeys hs hσ hR hJ
+  Proofs.cnf_sound E u t J R hkeys hs hσ hR hJ
 
 /-! ### PolarityCNFizer -/
 
-theorem polCnf_shape_thm (E : CNF.Env) (hσ : SimpShape E.simp) (t : Term) (hwf : t.wf = true)
+theorem polCnf_shape (E : CNF.Env) (hσ : SimpShape E.simp) (t : Term) (hwf : t.wf = true)
     (hqf : t.isQF = true) (R : List Clause) (hR : PolCNF.convert E t = some R) : shapeClauses R = true :=
-  polCnf_shape E hσ t hwf hqf R hR
+  Proofs.polCnf_shape E hσ t hwf hqf R hR
 
-theorem polCnf_complete_thm (E : CNF.Env) (u : Sym → Option Term) (t : Term) (I : Interp) (R : List Clause)
+theorem polCnf_complete (E : CNF.Env) (u : Sym → Option Term) (t : Term) (I : Interp) (R : List Clause)
     (hkeys : KeysFresh E u t) (hσ : SimpSound E.simp t I) (hR : PolCNF.convert E t = some R)
     (hI : eval I t = .b true) :
     eval (ext u I) (formulaOf R) = .b true ∧ SameOn t I (ext u I) :=
-  polCnf_complete E u t I R hkeys hσ hR hI
+  Proofs.polCnf_complete E u t I R hkeys hσ hR hI
 
-theorem polCnf_sound_thm (E : CNF.Env) (u : Sym → Option Term) (t : Term) (J : Interp) (R : List Clause)
+theorem polCnf_sound (E : CNF.Env) (u : Sym → Option Term) (t : Term) (J : Interp) (R : List Clause)
     (hkeys : KeysFresh E u t) (hs : SimpSym E.simp) (hσ : SimpSound E.simp t J)
     (hR : PolCNF.convert E t = some R) (hJ : eval J (formulaOf R) = .b true) : eval J t = .b true :=
-  polCnf_sound E u t J R hkeys hs hσ hR hJ
+  Proofs.polCnf_sound E u t J R hkeys hs hσ hR hJ
 
 /-! ### Ackermannization -/
 
-theorem ack_shape_thm (E : Ackermann.Env) (t : Term) : noApp (ack E t) = true := ack_shape E t
+theorem ack_shape (E : Ackermann.Env) (t : Term) : noApp (ack E t) = true :=
+  Proofs.ack_shape E t
 
-theorem ack_complete_thm (E : Ackermann.Env) (u : Sym → Option Term) (t : Term) (I : Interp)
+theorem ack_complete (E : Ackermann.Env) (u : Sym → Option Term) (t : Term) (I : Interp)
     (hwf : t.wf = true) (hqf : t.isQF = true) (hI : I.WF) (hconsts : ConstsFresh E u t)
     (ht : eval I t = .b true) :
     eval (extA u I) (ack E t) = .b true ∧ SameOn t I (extA u I) :=
-  ack_complete E u t I hwf hqf hI hconsts ht
+  Proofs.ack_complete E u t I hwf hqf hI hconsts ht
 
-theorem ack_sound_thm (E : Ackermann.Env) (t : Term) (J : Interp)
+theorem ack_sound (E : Ackermann.Env) (t : Term) (J : Interp)
     (hwf : t.wf = true) (hqf : t.isQF = true) (hJ : J.WF) (htyped : KeyTyped E t)
     (h : eval J (ack E t) = .b true) :
     eval (withFns J (recover E t J)) t = .b true :=
-  ack_sound E t J hwf hqf hJ htyped h
+  Proofs.ack_sound E t J hwf hqf hJ htyped h
 
 /-! ### the fresh-symbol supply (model of `FormulaManager.new_fresh_symbol`) -/
 
 theorem keys_fresh (σ : Term → Term) (t : Term) : KeysFresh (CNF.stdEnv σ t) (unkey (keyTable t)) t :=
-  keysFresh_std σ t
+  Proofs.keysFresh_std σ t
 
 theorem consts_fresh (t : Term) : ConstsFresh (Ackermann.stdEnv t) (unkey (constTable t)) t :=
-  constsFresh_std t
+  Proofs.constsFresh_std t
 
 /-! ### what K's canonicalisation forgets is semantically irrelevant -/
 
